@@ -10,7 +10,7 @@ def QID():
 from .ty import Ty, INT, BOOL, REAL, FLOAT, NONE, STR, parse_ty, subst_ty
 from . import num
 from .num import XR, fin, pinf, ninf, xval, is_fin, I, R, B
-from .engine import (Unsupported, Val, State, Frame, fresh, sort_of, reflike, str_id, cls_id,
+from .engine import (allows, Unsupported, Val, State, Frame, fresh, sort_of, reflike, str_id, cls_id,
                      is_docstring, MODS, _preorder)
 
 UNK = Ty("unk")
@@ -39,6 +39,8 @@ def ty_join(a, b):
         return a
     order = {"int": 0, "real": 1, "float": 2}
     if a.k in order and b.k in order:
+        if a.k == b.k == "real":
+            return REAL
         return a if order[a.k] >= order[b.k] else b
     if a.k == "none" and reflike(b):
         return b.with_opt()
@@ -190,6 +192,35 @@ class Interp:
                 m, g = m.split(" if ", 1)
                 guard = self.spec(g, st, frame, binds=binds)
                 m = m.strip()
+            if " where " in m:
+                head, cond = m.split(" where ", 1)
+                kind, var = head.rsplit(None, 1)
+                kind = kind.strip()
+                if kind.startswith("list["):
+                    lt = self.u.T(kind)
+                    e = self.ct.erase(lt)
+                    self.u.get_arr(st, "len:" + e, lt.elem)
+                    vty, keys = lt, ["len:" + e, "elt:" + e]
+                else:
+                    C, f = kind.split(".")
+                    K, fty = self.ct.find_field(C, f)
+                    if K is None:
+                        raise Unsupported("modifies: no field " + kind)
+                    key = "f:%s.%s" % (K, f)
+                    self.u.get_arr(st, key, self.u.T(fty))
+                    vty, keys = Ty("ref", (C,)), [key]
+
+                def mk(cond=cond, var=var, vty=vty, st=st.fork(), binds=dict(binds)):
+                    def f(r):
+                        b2 = dict(binds)
+                        b2[var] = Val(r, vty)
+                        return self.spec(cond, st.fork(), frame, binds=b2)
+                    return f
+                fnc = mk()
+                for k in keys:
+                    if out.get(k) != "*":
+                        out.setdefault(k, []).append(("where", fnc))
+                continue
             if m.startswith("*"):
                 body = m[1:]
                 if body.startswith("list["):
@@ -256,16 +287,13 @@ class Interp:
         alts = [ref >= u.next0]
         if u.is_init and key[:2] in ("f:", "de"):
             alts.append(ref == u.self_t)
-        for g, t in tg:
-            alts.append(z3.And(g, ref == t) if g is not None else ref == t)
+        alts += allows(tg, ref)
         u.oblige(st, z3.Or(*alts), "frame", key, u.contract.props | {"C14"}, where=where)
         for (lm, bound, n) in getattr(u, "loop_frames", []):
             tg = lm.get(key, [])
             if tg == "*":
                 continue
-            alts = [ref >= bound]
-            for g, t in tg:
-                alts.append(z3.And(g, ref == t) if g is not None else ref == t)
+            alts = [ref >= bound] + allows(tg, ref)
             u.oblige(st, z3.Or(*alts), "frame", "loop%d:%s" % (n, key), u.contract.props | {"C14"}, where=where)
 
     # ================================================================== spec helpers
@@ -313,8 +341,12 @@ class Interp:
         if a.k == "tuple":
             return v
         if ty.k == "real":
+            if a.k == "real":
+                return Val(v.t, ty)
             if a.k == "int":
-                return Val(z3.ToReal(v.t), REAL)
+                if getattr(self.u.contract, "nla", "native") == "uf" and not z3.is_int_value(z3.simplify(v.t)):
+                    return Val(num.use_i2r(self.u)(v.t), ty)
+                return Val(z3.ToReal(v.t), ty)
             if a.k == "bool":
                 return Val(z3.If(v.t, z3.RealVal(1), z3.RealVal(0)), REAL)
             if a.k == "float":
@@ -323,6 +355,8 @@ class Interp:
                 return Val(xval(v.t), REAL)
         if ty.k == "float":
             if a.k == "int":
+                if getattr(self.u.contract, "nla", "native") == "uf" and not z3.is_int_value(z3.simplify(v.t)):
+                    return Val(fin(num.use_i2r(self.u)(v.t)), FLOAT)
                 return Val(fin(z3.ToReal(v.t)), FLOAT)
             if a.k == "real":
                 return Val(fin(v.t), FLOAT)
@@ -369,6 +403,7 @@ class Interp:
                     outs = []
                 for kind, s2, v in outs:
                     if kind == "next":
+                        self.apply_cuts(s, s2, frame)
                         nxt.append(s2)
                     else:
                         done.append((kind, s2, v))
@@ -376,6 +411,37 @@ class Interp:
             if not live:
                 break
         return [("next", s, None) for s in live] + done
+
+    def stmt_tags(self, frame, s):
+        key = id(frame.fdef)
+        cache = self.__dict__.setdefault("_tagcache", {})
+        if key not in cache:
+            d, counts = {}, {}
+            for x in _preorder(frame.fdef):
+                tags = []
+                if isinstance(x, ast.If):
+                    tags.append("if")
+                if isinstance(x, (ast.Expr, ast.Assign)) and isinstance(x.value, ast.Call) and isinstance(x.value.func, ast.Attribute):
+                    tags.append("call:" + x.value.func.attr)
+                out = []
+                for t in tags:
+                    n = counts.get(t, 0)
+                    counts[t] = n + 1
+                    out.append("%s#%d" % (t, n))
+                if out:
+                    d[id(x)] = out
+            cache[key] = d
+        return cache[key].get(id(s), [])
+
+    def apply_cuts(self, s, st, frame):
+        cuts = getattr(self.reg, "cuts", None)
+        if not cuts or self.u.dry:
+            return
+        for tag in self.stmt_tags(frame, s):
+            for cl in cuts.get((frame.qname, tag), []):
+                g = self.spec(cl.text, st, frame, old=self.u.entry, assume=False)
+                self.oblige_split(st, g, "cut", "%s.%s" % (tag, cl.label), cl.props)
+                st.pc.append(self.spec(cl.text, st, frame, old=self.u.entry, assume=True))
 
     def feasible(self, st, extra):
         if self.u.dry:
@@ -396,25 +462,34 @@ class Interp:
             if isinstance(s.value, ast.Call) and isinstance(s.value.func, ast.Name) and s.value.func.id == "print":
                 return [("next", st, None)]
             ev = Ev(self, st, frame)
+            ev.fork_node = s.value          # an inlined callee with several outcomes forks the path here (no merging)
             ev.ev(s.value)
-            return [("next", ev.st, None)]
+            return [("next", ev.st, None)] + [("next", s2, None) for s2, v2 in ev.forks]
         if isinstance(s, ast.Assign):
             if len(s.targets) != 1:
                 raise Unsupported("chained assignment")
             ev = Ev(self, st, frame)
             tgt = s.targets[0]
             want = self.target_type(tgt, ev)
+            ev.fork_node = s.value
             v = ev.ev(s.value, want)
-            self.assign(tgt, v, ev, s)
-            return [("next", ev.st, None)]
+            outs = []
+            for s2, v2 in [(ev.st, v)] + list(ev.forks):
+                e2 = Ev(self, s2, frame)
+                if v2 is not v and want is not None and v2.ty != want and v2.ty.k != "tuple":
+                    v2 = self.coerce(v2, want, s2, s, frame)
+                self.assign(tgt, v2, e2, s)
+                outs.append(("next", e2.st, None))
+            return outs
         if isinstance(s, ast.AugAssign):
             ev = Ev(self, st, frame)
             self.augassign(s, ev)
             return [("next", ev.st, None)]
         if isinstance(s, ast.Return):
             ev = Ev(self, st, frame)
+            ev.fork_node = s.value
             v = ev.ev(s.value) if s.value is not None else None
-            return [("return", ev.st, v)]
+            return [("return", ev.st, v)] + [("return", s2, v2) for s2, v2 in ev.forks]
         if isinstance(s, ast.Raise):
             exc = s.exc
             name = exc.func.id if isinstance(exc, ast.Call) else getattr(exc, "id", "Exception")
@@ -597,8 +672,7 @@ class Interp:
                 conds = [r > 0, r < u.next0]
                 if u.is_init and k[:2] in ("f:", "de"):
                     conds.append(r != u.self_t)
-                for g, t in tg:
-                    conds.append(z3.Not(z3.And(g, r == t)) if g is not None else r != t)
+                conds += [z3.Not(c) for c in allows(tg, r)]
                 st.pc.append(z3.ForAll([r], z3.Implies(z3.And(*conds), A[r] == A0[r]), qid=QID(), patterns=[A[r]]))
         if loopmod is not None:
             # loop-level frame: slots allocated before the loop and outside the loop's targets keep their loop-entry value
@@ -612,9 +686,7 @@ class Interp:
                     continue
                 A = st.heap[k]
                 A0 = u.get_arr(entry, k, u.key_ty(k))
-                conds = [r > 0, r < entry.next]
-                for g, t in tg:
-                    conds.append(z3.Not(z3.And(g, r == t)) if g is not None else r != t)
+                conds = [r > 0, r < entry.next] + [z3.Not(c) for c in allows(tg, r)]
                 st.pc.append(z3.ForAll([r], z3.Implies(z3.And(*conds), A[r] == A0[r]), qid=QID(), patterns=[A[r]]))
         # references held in locals stay below the allocation bound
         for nm, v in st.locals.items():
@@ -795,6 +867,7 @@ class Interp:
         body_st = st.fork()
         body_st.pc.append(k < cnt)
         body_st = bind_target(body_st, k)
+        body_st.locals["_k%d" % n] = Val(k, INT)       # visible to the invariants of nested loops
         outs = self.run_framed(lm, entry, n, lambda: self.exec_block(s.body, body_st, frame))
         res = [("next", exit_st, None)]
         for kind, s2, v in outs:
@@ -901,6 +974,11 @@ class Interp:
                 self.run_ghost(c, s2, fr)
         if len(normal) == 1:
             s2, v = normal[0]
+        elif node is getattr(ev, "fork_node", None):
+            s2, v = normal[0]
+            for s3, v3 in normal[1:]:
+                s3.locals = dict(saved)
+                ev.forks.append((s3, v3 if v3 is not None else Val(z3.IntVal(0), NONE)))
         else:
             s2, v = self.merge(n0, normal)
         s2.locals = saved
@@ -989,12 +1067,19 @@ class Interp:
                 if lst == "*":
                     u.oblige(st, z3.BoolVal(False), "frame", "%s writes all of %s" % (qname, k), c.props | {"C14"}, where=where)
                     continue
-                for g, t in lst:
-                    alts = [t >= u.next0]
+                for ent in lst:
+                    if isinstance(ent[0], str) and ent[0] == "where":
+                        r = z3.Int("fw_r")
+                        alts = [r >= u.next0] + allows(mine, r)
+                        if u.is_init and k[:2] in ("f:", "de"):
+                            alts.append(r == u.self_t)
+                        goal = z3.ForAll([r], z3.Implies(z3.And(r > 0, r < st.next, ent[1](r)), z3.Or(*alts)))
+                        u.oblige(st, goal, "frame", "%s:%s" % (qname, k), u.contract.props | {"C14"}, where=where)
+                        continue
+                    g, t = ent
+                    alts = [t >= u.next0] + allows(mine, t)
                     if u.is_init and k[:2] in ("f:", "de"):
                         alts.append(t == u.self_t)
-                    for g2, t2 in mine:
-                        alts.append(z3.And(g2, t == t2) if g2 is not None else t == t2)
                     goal = z3.Or(*alts)
                     if g is not None:
                         goal = z3.Implies(g, goal)
@@ -1003,8 +1088,7 @@ class Interp:
                         ltg = lm.get(k, [])
                         if ltg == "*":
                             continue
-                        alts = [t >= bound] + [(z3.And(g2, t == t2) if g2 is not None else t == t2) for g2, t2 in ltg]
-                        goal = z3.Or(*alts)
+                        goal = z3.Or(*([t >= bound] + allows(ltg, t)))
                         if g is not None:
                             goal = z3.Implies(g, goal)
                         u.oblige(st, goal, "frame", "loop%d:%s:%s" % (ln, qname, k), u.contract.props | {"C14"}, where=where)
@@ -1035,7 +1119,11 @@ class Interp:
                     b2 = dict(binds)
                     for wv, (wty, wexpr) in e.witness.items():
                         wt = u.T(wty)
-                        b2[wv] = Val(fresh("wit_" + wv, sort_of(wt)), wt)
+                        try:
+                            # a witness that is a function of the parameters / the heap is evaluated, not skolemised
+                            b2[wv] = self.coerce(self.spec_val(wexpr, st, fr2, old=pre, binds=b2), wt, st, None, fr2, spec=True)
+                        except Unsupported:
+                            b2[wv] = Val(fresh("wit_" + wv, sort_of(wt)), wt)
                 st.pc.append(self.spec(e.text, st, fr2, old=pre, binds=b2))
         finally:
             st.locals = saved
